@@ -85,14 +85,14 @@ def main(run):
                     idents.append((bi, v[1].decode()))
             if c.endswith('quote_into_iter') or c.endswith('ToTokens>::to_tokens') or c == 'quote::ToTokens::to_tokens':
                 v = T.operand(t['args'][0])
-                # look for the text view of the validated buffer
-                for node in terms.walk(v):
-                    if node[0] == 'call' and any(node[1].endswith(s) for s in TEXT_VIEW) and node[1].startswith(f'iref_core::{buf}::') and node[2]:
-                        src = node[2][0]
-                        if src == ('field', ctor_term, 0):
-                            value_ok = True
-                        else:
-                            bad_value = str(src)[:100]
+                # the interpolated value must BE the text view of the validated buffer (references are transparent in
+                # terms): any function in between (escaping, trimming, re-encoding …) changes the produced text
+                if c.endswith('to_tokens') and v[0] == 'agg' and v[1][0] == 'adt' and 'RepInterp' in v[1][1] and v[2]:
+                    continue    # per-element interpolation of the byte iterator (checked through quote_into_iter)
+                if v[0] == 'call' and any(v[1].endswith(sfx) for sfx in TEXT_VIEW) and v[1].startswith(f'iref_core::{buf}::') and v[2] and v[2][0] == ('field', ctor_term, 0):
+                    value_ok = True
+                else:
+                    bad_value = str(v)[:140]
         names = [i for _, i in idents]
         if names != ['unsafe', 'iref', borrowed, 'new_unchecked']:
             run.violation(key, f'{where} {name}! expands to the path {" :: ".join(names)} — expected `unsafe {{ ::iref::{borrowed}::new_unchecked(..) }}`: the value would be wrapped as another type than the one validated ({buf})')
@@ -100,8 +100,8 @@ def main(run):
         if any(bb_ok not in dom.get(bi, ()) for bi, _ in idents):
             run.violation(key, f'{where} {name}!: tokens are built outside the accepting branch of {cname}')
             continue
-        if not value_ok:
-            run.violation(key, f'{where} {name}!: the value interpolated into the expansion is not as_bytes()/as_str() of the validated buffer' + (f' (source {bad_value})' if bad_value else ''))
+        if not value_ok or bad_value:
+            run.violation(key, f'{where} {name}!: the value interpolated into the expansion is not exactly as_bytes()/as_str() of the validated buffer' + (f' (it is {bad_value})' if bad_value else ''))
             continue
         # reject
         perr = [(bi, t) for bi, t in PM.calls(b) if (mir.callee(t) or '') == 'produce_error']
